@@ -163,3 +163,6 @@ def run(ctx):
                 mentions(nx[0].args[0], lambda s: is_call(s, "SummaryStream::entries") or (s[0] == "field" and s[3] == "entries")) and not mentions(nx[0].args[0], lambda s: is_call(s, "::rev"))
         ctx.check(ok, "D5-PRINT", DS, "per-entry-in-order", "one write per entry, in entries() order", "Display does not print every entry of entries() once, in order", fn_span(body))
         errprop(ctx, DS, paths, body, rule="D5-ERRPROP", no_effects_after_error=("write_fmt",), floor=1)
+
+    # ---- the accessor through which the collected entries are observed
+    accessor_faithful(ctx, "D1-ACCESSOR", "summary::SummaryStream::entries", "entries")
